@@ -375,9 +375,39 @@ theorem step_chars_inv (hemb : EmbGood emb) {S : List Frame} {r0 : Option Node} 
 theorem Shape.ne_nil {S st : List Frame} (h : Shape S st) : st ≠ [] := by
   rcases h with ⟨e, _, hs⟩ | ⟨c, e, _, _, hs⟩ <;> simp [hs]
 
-theorem step_startElt {b : BState} (herr : b.error = none) (hs : b.stack ≠ []) (n : Name) (a : List Attr) :
+theorem leaveCdata_elt {b : BState} {e : Frame} {rest : List Frame} (hs : b.stack = e :: rest) (he : IsElt e) :
+    b.leaveCdata = b := by
+  obtain ⟨n, a, hk⟩ := he
+  unfold BState.leaveCdata
+  rw [hs]
+  cases rest with
+  | nil => rfl
+  | cons g r => simp only [hk]
+
+theorem leaveCdata_cd {b : BState} {c e : Frame} {rest : List Frame} (hs : b.stack = c :: e :: rest) (hc : IsCd c) :
+    b.leaveCdata = { b with stack := { e with kids := addKid e.kids c.close } :: rest } := by
+  unfold BState.leaveCdata
+  rw [hs]
+  have hc' : c.kind = FrameKind.cdata := hc
+  simp only [hc']
+
+/-- Leaving the CDATA section (if one is open) keeps the invariant; the element frame is on top
+    afterwards. -/
+theorem leaveCdata_inv {S : List Frame} {r0 : Option Node} {b : BState} (h : Inv S r0 b) :
+    Inv S r0 b.leaveCdata := by
+  rcases h.shape with ⟨e, he, hs⟩ | ⟨c, e, hc, he, hs⟩
+  · rw [leaveCdata_elt hs he]; exact h
+  · rw [leaveCdata_cd hs hc]
+    refine ⟨h.err, Or.inl ⟨{ e with kids := addKid e.kids c.close }, he, rfl⟩, ⟨?_, h.good.root⟩, h.root⟩
+    intro fr hfr
+    rcases List.mem_cons.1 hfr with hfr | hfr
+    · rw [hfr]
+      exact (h.good.frames e (by rw [hs]; simp)).addKid (Good.close (h.good.frames c (by rw [hs]; simp)))
+    · exact h.good.frames fr (by rw [hs]; exact List.mem_cons_of_mem _ (List.mem_cons_of_mem _ hfr))
+
+theorem step_startElt {b : BState} (herr : b.error = none) (hs : b.leaveCdata.stack ≠ []) (n : Name) (a : List Attr) :
     buildStep main emb b (.startElt n a) =
-      { b with stack := { kind := FrameKind.elt n a, kids := [] } :: b.stack } := by
+      { b.leaveCdata with stack := { kind := FrameKind.elt n a, kids := [] } :: b.leaveCdata.stack } := by
   unfold buildStep
   rw [herr]
   simp only [Option.isSome_none, Bool.false_eq_true, if_false]
@@ -442,9 +472,12 @@ theorem bal_run (hemb : EmbGood emb) {es : List Event} (hb : Bal es) :
     rw [List.foldl_cons, step_pi]
     exact ih S r0 b h
   | elt n attrs n' _ _ ihb ihe =>
-    intro S r0 b h
+    intro S r0 b0 h0
+    -- the element start first leaves an open CDATA section
+    have h := leaveCdata_inv h0
     rw [List.foldl_cons, List.foldl_append, List.foldl_cons,
-      step_startElt main emb h.err h.shape.ne_nil]
+      step_startElt main emb h0.err h.shape.ne_nil]
+    generalize b0.leaveCdata = b at h ⊢
     have h1 : Inv b.stack r0 { b with stack := { kind := FrameKind.elt n attrs, kids := [] } :: b.stack } := by
       refine ⟨h.err, Or.inl ⟨_, ⟨n, attrs, rfl⟩, rfl⟩, ⟨?_, h.good.root⟩, h.root⟩
       intro fr hfr
